@@ -160,6 +160,25 @@ def run(ctx):
                 direct.append({"key": {"seq": rq[1][0], "struct": "".join(rq[1][1]), "ops": rq[1][2]}, "input": {"history": rq[1]},
                                "what": str(r), "snippet": f"# harness op c03_fresh_compare {rq[1]!r} (harness/impl/views.py)"})
         ctx.cov["correspondence"]["views-after-split(impl)"] = {"cases": len(sp), "failures": len(direct)}
+        # is_domainlevel_complement is about the complement RELATION (`~` toggles one trailing star), not about base names:
+        # names with several trailing stars and look-alike names, compared with `x is ~y` over the pair table
+        dl = []
+        spool2 = [x for x in small if "(" in x and len(x) <= 7]
+        for s_ in ctx.rng.sample(spool2, min(len(spool2), 300 if ctx.tier == "quick" else 3000)):
+            pool_ = ctx.rng.choice([("t", "t*", "t**"), ("t**", "t*", "t***"), ("a", "a*", "a**", "aa", "aa*")])
+            dl.append(("cx_dlc_direct", [["+" if c == "+" else ctx.rng.choice(pool_) for c in s_], list(s_)]))
+        n_dl = 0
+        for rq, r in zip(dl, run_impl(dl)):
+            if isinstance(r, Err):
+                direct.append({"key": {"dlc": rq[1]}, "input": {"dlc": rq[1]}, "what": f"raised {r.kind}",
+                               "snippet": f"# harness op cx_dlc_direct {rq[1]!r} (harness/impl/views.py)"})
+            elif r[0] == "ok":
+                n_dl += 1
+                if r[1] != r[2]:
+                    direct.append({"key": {"dlc": rq[1]}, "input": {"dlc": rq[1]},
+                                   "what": f"is_domainlevel_complement = {r[1]}, but `x is ~y` for every pair is {r[2]}",
+                                   "snippet": f"# harness op cx_dlc_direct {rq[1]!r} (harness/impl/views.py)"})
+        ctx.cov["correspondence"]["domainlevel-complement-direct(impl)"] = {"cases": len(dl), "constructed": n_dl}
     ctx.cov["rule"] = ("every well-formed structure with non-empty strands up to the tier's length bound (8 quick / 10 "
                        "thorough) for make_loop_index in both modes, one length less for the five object-level views "
                        "(called in a random order); random structures up to 60 strands / depth 100; single-fault damaged "
@@ -237,6 +256,11 @@ def replay(data):
     if not inp:
         print("replay file names a broken proof/correspondence link only:", json.dumps(data.get("broken_links"))[:2000])
         return 1
+    if isinstance(inp, dict) and "dlc" in inp:
+        from common import run_impl
+        r = run_impl([("cx_dlc_direct", inp["dlc"])])[0]
+        print(r)
+        return 0 if (isinstance(r, list) and (r[0] != "ok" or r[1] == r[2])) else 1
     if isinstance(inp, dict) and "history" in inp:
         from common import run_impl
         r = run_impl([("c03_fresh_compare", inp["history"])])[0]
